@@ -21,6 +21,7 @@ mod kdbx2;
 mod legacy;
 mod canon;
 mod xmldb;
+mod prior;
 
 use common::Args;
 
